@@ -52,6 +52,8 @@ fn build_env(s: &Subject, fuel: Option<u64>, log: &ProbeLog) -> Result<Environme
     // a host function that calls back into the engine and swallows whatever goes wrong: after an
     // out-of-fuel error inside it the render must not continue unmetered
     env.add_function("attempt", |state: &mut State, callee: Value| -> Value { callee.call(state, &[]).unwrap_or_else(|_| Value::from("[unavailable]")) });
+    // a host function that renders a block of the running template through the state
+    env.add_function("rb", |state: &mut State, name: String| -> Result<Value, minijinja::Error> { state.render_block(&name).map(Value::from) });
     env.add_function("attempt_render", |state: &State, name: String| -> Value {
         state.env().get_template(&name).and_then(|t| t.render(())).map(Value::from).unwrap_or_else(|_| Value::from("[unavailable]"))
     });
@@ -71,9 +73,28 @@ fn run(s: &Subject, ctx: &Value, fuel: Option<u64>) -> (Out, Option<(u64, u64)>,
         };
         let t = env.get_template(&s.main).unwrap();
         let rv = match t.render_captured(ctx.clone()) {
-            Ok(c) => {
-                let levels = c.state().fuel_levels();
-                (Out::Ok(c.output().to_string()), levels)
+            Ok(mut c) => {
+                let mut levels = c.state().fuel_levels();
+                let mut out = c.output().to_string();
+                if s.name.ends_with(":fragments") {
+                    // the embedder goes on with the same state: one more block, metered by the same tracker
+                    match c.with_state_mut(|st| st.render_block("b")) {
+                        Ok(frag) => {
+                            out.push_str("\u{1}");
+                            out.push_str(&frag);
+                            let after = c.state().fuel_levels();
+                            if let (Some((c0, _)), Some((c1, _))) = (levels, after) {
+                                if c1 <= c0 {
+                                    return (Out::Err(ErrorKind::InvalidOperation), Some((u64::MAX, c1)));
+                                }
+                            }
+                            levels = after;
+                        }
+                        Err(e) if is_out_of_fuel(&e) => return (Out::Fuel, None),
+                        Err(e) => return (Out::Err(e.kind()), None),
+                    }
+                }
+                (Out::Ok(out), levels)
             }
             Err(e) => {
                 if is_out_of_fuel(&e) {
@@ -270,6 +291,28 @@ pub fn main(args: Args) -> i32 {
             subjects.push(Subject { name: format!("swallow#{}_{}_{}:swallowed_error", form, n, tail), templates: vec![("main".into(), src)], main: "main".into() });
         }
     }
+    // blocks rendered through the state API, from inside the render and after it, share the render's
+    // fuel: consumption accumulates and the budget threshold counts them
+    for k in [1usize, 3, 12] {
+        subjects.push(Subject {
+            name: format!("rb#{}:render_block_callback", k),
+            templates: vec![("main".into(), format!("{{% block b %}}{{% for i in range(5) %}}w{{% endfor %}}{{% endblock %}}|{{{{ probe() }}}}{{% for j in range({}) %}}{{{{ rb('b') }}}}{{{{ probe() }}}}{{% endfor %}}", k))],
+            main: "main".into(),
+        });
+        subjects.push(Subject {
+            name: format!("rbchild#{}:render_block_callback", k),
+            templates: vec![
+                ("main".into(), format!("{{% extends 'base' %}}{{% block b %}}[{{{{ super() }}}}]{{% for j in range({}) %}}{{{{ rb('c') }}}}{{{{ probe() }}}}{{% endfor %}}{{% endblock %}}", k)),
+                ("base".into(), "{{ probe() }}{% block b %}B{% endblock %}{% block c %}{% for i in range(4) %}c{% endfor %}{% endblock %}".into()),
+            ],
+            main: "main".into(),
+        });
+        subjects.push(Subject {
+            name: format!("frag#{}:fragments", k),
+            templates: vec![("main".into(), format!("{{% block b %}}{{% for i in range({}) %}}w{{% endfor %}}{{% endblock %}}|{{% block c %}}x{{% endblock %}}", k))],
+            main: "main".into(),
+        });
+    }
     let single = subjects.len();
     for m in gen::multi_corpus(args.tier.pick(3, 1)) {
         subjects.push(Subject { name: m.name.clone(), templates: m.templates.iter().map(|(a, b)| (a.to_string(), b.clone())).collect(), main: m.main.to_string() });
@@ -292,7 +335,7 @@ pub fn main(args: Args) -> i32 {
             level: "exploration",
             tier: args.tier,
             seed: args.seed,
-            rule: format!("programs: the complete depth-1 space of G ({} programs, bracketed by probe() calls), every {}th program of the depth-2 space, 16 programs in which a host function calls a macro or caller back and swallows its error (the rest of the render stays metered), and 5 multi-template families (include, include in loop, extends+super, import/from-import of macros, three-level inheritance) built on depth-1 bodies with probe() calls inside included templates, macros and blocks; x 2 contexts. For each: unlimited render, render under 10^6 (consumption c, consumed+remaining==budget, probe sequence strictly increasing), then EVERY budget 0..=c+3 (400 for failing programs) must show one threshold T (= c+1) below which the result is OutOfFuel and from which on it equals the unlimited result, determinism at T and T-1, and 7 extreme budgets up to u64::MAX. distinct non-trivial = (program, context) pairs for which a threshold was established", g1.size(), stride2),
+            rule: format!("programs: the complete depth-1 space of G ({} programs, bracketed by probe() calls), every {}th program of the depth-2 space, 9 programs that render blocks through State::render_block from a host function inside the render or from the embedder after it (same tracker: consumption accumulates, the threshold counts them), 16 programs in which a host function calls a macro or caller back and swallows its error (the rest of the render stays metered), and 5 multi-template families (include, include in loop, extends+super, import/from-import of macros, three-level inheritance) built on depth-1 bodies with probe() calls inside included templates, macros and blocks; x 2 contexts. For each: unlimited render, render under 10^6 (consumption c, consumed+remaining==budget, probe sequence strictly increasing), then EVERY budget 0..=c+3 (400 for failing programs) must show one threshold T (= c+1) below which the result is OutOfFuel and from which on it equals the unlimited result, determinism at T and T-1, and 7 extreme budgets up to u64::MAX. distinct non-trivial = (program, context) pairs for which a threshold was established", g1.size(), stride2),
             exhaustive: true,
             bound: json!({"extremes": EXTREMES, "contexts": 2}),
             assumptions: vec!["the depth-2 space is visited by a fixed stride (systematic subset), not completely".into()],
